@@ -69,7 +69,7 @@ Definition ri_access_table : list string := [
   "loom/wheel.go:Wheel.onTicker|A:LoadInt64:position A:LoadPointer:channels A:StoreInt64:position A:StorePointer:channels close:c";
   "loom/wheel_timer.go:WheelTimer.Reset|R:interval if( R:wheel ){ } R:wheel C:fetchWheelData W:C";
   "taskx/queue.go:NewQueue|R:closeChan ret";
-  "taskx/queue.go:Queue.SendCallback|if( ){ ret } S:wg.Add select{ case{ recv:closeChan } case{ send:C } } ret";
+  "taskx/queue.go:Queue.SendCallback|if( ){ ret } new:taskCallback S:wg.Add select{ case{ recv:closeChan } case{ send:C } } ret";
   "taskx/queue.go:Queue.SendDelayed|if( ){ ret } C:newTaskDelayed C:PushTask";
   "taskx/queue.go:Queue.SendTask|if( ){ select{ case{ recv:closeChan } case{ send:C } } } ret";
   "taskx/queue.go:Queue.checkQueueFull|len:C if( cap:C ){ }";
